@@ -9,6 +9,8 @@ def run_udf(udf, data, partitions=None, tiling=None, depth=1, backend=UDF.BACKEN
     partition with all frames.  tiling: list of (y0, x0, h, w) signal-plane tiles (for process_tile UDFs);
     depth: number of frames stacked in one tile.  Returns dict name -> full result array (n, *extra_shape)."""
     data = np.asarray(data)
+    data0 = data.copy()                       # the dataset is read-only for a UDF
+    aux0 = {k: np.array(v.data, copy=True) for k, v in udf._kwargs.items() if isinstance(v, AuxData)}
     n = data.shape[0]
     sig = data.shape[1:]
     if partitions is None:
@@ -53,6 +55,11 @@ def run_udf(udf, data, partitions=None, tiling=None, depth=1, backend=UDF.BACKEN
     udf.params = params(None)
     udf.results = _NS(**full)
     udf.postprocess()
+    if not np.array_equal(data, data0, equal_nan=True):
+        raise RuntimeError('the UDF modified the frames of the dataset in place')
+    for k, v in aux0.items():
+        if not np.array_equal(np.asarray(udf._kwargs[k].data), v, equal_nan=True):
+            raise RuntimeError('the UDF modified its AUX data `%s` in place' % k)
     return full
 
 
